@@ -68,7 +68,7 @@ struct Spec {
     std::string json() const {
         JFields f = {{"kind", jstr(KIND_NAME[kind])}};
         if (kind <= BEZ || kind == PAR || kind == INT) f.push_back({"relative", jbool(rel)});
-        if (kind <= CSM) f.push_back({"overload", jstr(variant ? "array" : "scalar")});
+        if (kind == SEG || kind == HOR || kind == VER || kind == QSM) f.push_back({"overload", jstr(variant ? "array" : "scalar")});
         if (!pts.empty()) {
             std::vector<std::string> v;
             for (auto& p : pts) v.push_back("[" + jnum(p.x) + "," + jnum(p.y) + "]");
@@ -507,13 +507,21 @@ static SecOut check_vertices(const CaseCtx& cx, const std::string& sub, JFields 
     N[0] = toP(before.back());
     LD tp = 0;
     bool all_on = true;
+    int fine = 1;
     for (int i = 0; i < nnew; i++) {
         P2 v = toP(nv[i]);
         N[i + 1] = v;
         LD t, dm;
-        if (!ex.find_from(v, tp, eps, t, dm)) {
+        if (!ex.find_from(v, tp, eps, t, dm, fine)) {
+            if (fine == 1) {   // redo the whole ordered search in careful mode before judging
+                fine = 16;
+                R->count("careful_search");
+                i = -1;
+                tp = 0;
+                continue;
+            }
             LD t0, dm0;
-            bool earlier = ex.find_from(v, 0, eps, t0, dm0);
+            bool earlier = ex.find_from(v, 0, eps, t0, dm0, fine);
             if (earlier)
                 viol("order", {}, fmt("new vertex %d of %d %s lies on the curve only at parameter %.9Lg, before its predecessor's %.9Lg", i, nnew, vstr(nv[i]).c_str(), t0, tp));
             else
